@@ -23,6 +23,13 @@ ReadsOK(pr, c, o) ==
 \* C08 / C05: Paseto::format_token - a fourth segment iff the footer set last is non-empty, and it is that footer
 SegOK(c, o) == ("fseg" \in DOMAIN o) => o.fseg = (IF IsEmptyT(FB(c.f)) THEN "none" ELSE c.f)
 
+\* C08 on a re-used object: the minted text is the specification's token (term evaluator: byte-identical for local
+\* purposes, signature over the specification's signing input for public ones) for exactly the payload, footer and
+\* assertion the object holds at the mint - "specof" lists the combinations the text is the specification's token of
+SpecWant(pr, c) == c.m \o "|" \o (IF IsEmptyT(FB(c.f)) THEN "none" ELSE c.f) \o "|"
+                        \o (IF HasAssertion(pr[1]) /\ ~IsEmptyT(AB(c.a)) THEN c.a ELSE "none")
+SpecOK(pr, c, o) == ("specof" \in DOMAIN o) => o.specof = <<SpecWant(pr, c)>>
+
 Why(pr, c, o) ==
   LET P(r) == [pr |-> pr, k |-> r.k, f |-> r.f, a |-> r.a]
       badr == {i \in 1..Len(o.reads) : ~ReadAllowed(pr, c, o, P(o.reads[i]), [res |-> o.reads[i].res, msg |-> o.reads[i].msg])}
@@ -30,6 +37,7 @@ Why(pr, c, o) ==
       matching(r) == FB(r.f) = FB(c.f) /\ r.k = o.k /\ (HasAssertion(pr[1]) => AB(r.a) = AB(c.a))
   IN IF o.res # "ok" THEN "C01 C02 mint failed"
      ELSE (IF ~SegOK(c, o) THEN "C08 C05 footer segment of the minted text is " \o o.fseg \o ", the footer set last is " \o c.f \o "; " ELSE "")
+       \o (IF ~SpecOK(pr, c, o) THEN "C08 the minted text is not exactly the specification's token for the values the builder object holds (" \o SpecWant(pr, c) \o "); " ELSE "")
        \o (IF \E r \in R : r.res = "ok" /\ r.k # o.k THEN "C04 accepted under another key; " ELSE "")
        \o (IF \E r \in R : r.res = "ok" /\ FB(r.f) # FB(c.f) THEN "C05 accepted under another footer; " ELSE "")
        \o (IF \E r \in R : r.res = "ok" /\ HasAssertion(pr[1]) /\ AB(r.a) # AB(c.a) THEN "C06 accepted under another assertion; " ELSE "")
@@ -43,7 +51,7 @@ Walk(pr, c, ops, i) ==
   IF i > Len(ops) THEN [step |-> 0, why |-> ""]
   ELSE LET o == ops[i] IN
        IF o.op = "mint"
-       THEN IF o.res = "ok" /\ ReadsOK(pr, c, o) /\ SegOK(c, o) THEN Walk(pr, c, ops, i + 1) ELSE [step |-> i, why |-> Why(pr, c, o)]
+       THEN IF o.res = "ok" /\ ReadsOK(pr, c, o) /\ SegOK(c, o) /\ SpecOK(pr, c, o) THEN Walk(pr, c, ops, i + 1) ELSE [step |-> i, why |-> Why(pr, c, o)]
        ELSE Walk(pr, CApply(c, COp(o.op, o.v, "", "")), ops, i + 1)
 
 Check(r) == Walk(ProtoOf(r.pr), CInit, r.ops, 1)
